@@ -10,12 +10,7 @@ EDITS["nzcount_after_delete"] = [
 		qslp->nzcount -= dk;
 		if (cnt[i] == 0)'''),
 ]
-EDITS["symtab_uname_numlen"] = [
- ("qsopt_ex/symtab.c", '''		numlen = (log10 ((double) (symtab->tablesize - 1) * 10)) + 1;''',
-  '''		/* tablesize == 1: log10(0) is -inf and its conversion to int undefined */
-		numlen = symtab->tablesize > 1 ?
-			(int) (log10 ((double) (symtab->tablesize - 1) * 10)) + 1 : 1;'''),
-]
+# "symtab_uname_numlen" (guard log10(0) in ILLsymboltab_uname) was fixed centrally (62d38ed) with the same change
 EDITS["names_query_empty"] = [
  ("qsopt_ex/lib.c", '''	if (qslp->rownames == 0)
 	{
